@@ -301,8 +301,17 @@ impl<Src, Dst> Mat4x4<RealToReal<3, Src, Dst>> {
         use super::float::f32;
         if cfg!(debug_assertions) {
             let det = self.determinant();
+            // Compare to the magnitude of the rows of the linear part so that
+            // uniformly small (or large) matrices are not deemed singular
+            let mag = self.0[..3].iter().fold(1.0, |prod, row| {
+                let max = row[..3].iter().fold(0.0, |max, &e| {
+                    let abs = f32::abs(e);
+                    if abs > max { abs } else { max }
+                });
+                prod * max
+            });
             assert!(
-                f32::abs(det) > f32::EPSILON,
+                f32::abs(det) > f32::EPSILON * mag,
                 "a singular, near-singular, or non-finite matrix does not \
                  have a well-defined inverse (determinant = {det})"
             );
